@@ -218,7 +218,10 @@ class Impl:
         elif name == 'rment':
             e = self._reg(op[1], V.Entity)
             if e is not None:
-                e.remove()
+                try:
+                    e.remove()
+                except ValueError:      # "The worldspawn entity cannot be removed!" (nothing was done)
+                    pass
         elif name == 'side':
             _, r, m, des = op
             vmf = self._map(m)
